@@ -671,15 +671,16 @@ class ColAgg(Nd):
 
     def __init__(self, base, axis):
         self.base, self.axis = base, axis
-        self.shape = (base.shape[1],) if (axis == 0 and base.ndim == 2) else ()
+        self.shape = (base.shape[1 - axis],) if (axis in (0, 1) and base.ndim == 2) else ()
 
     def members(self, coords, q):
         """Concrete mode: contents aggregated into the element."""
         out = []
-        if self.base.ndim == 2 and self.axis == 0:
-            rows = int(q.env.eval(self.base.shape[0]))
-            for i in range(rows):
-                out.append(self.base.cell([Lin.c(i), coords[0]], q))
+        if self.base.ndim == 2 and self.axis in (0, 1):
+            n = int(q.env.eval(self.base.shape[self.axis]))
+            for i in range(n):
+                cc = [Lin.c(i), coords[0]] if self.axis == 0 else [coords[0], Lin.c(i)]
+                out.append(self.base.cell(cc, q))
         else:
             n = int(q.env.eval(self.base.shape[0]))
             for i in range(n):
@@ -909,6 +910,9 @@ class AInterp(Interp):
     # -- attributes ---------------------------------------------------------------
     def getattr(self, base, attr, e, st, frame):
         if isinstance(base, SelfV):
+            heap = getattr(st, "heap", None)
+            if heap is not None and (id(base), attr) in heap:
+                return heap[(id(base), attr)]
             if attr in base.attrs:
                 return base.attrs[attr]
             if attr in self.self_attrs:
@@ -1190,6 +1194,8 @@ class AInterp(Interp):
             if shp is None:
                 return Opq(ext, args)
             fv = args[1]
+            if len(shp) == 1 and not is_nan(fv) and as_lin_val(fv) is None and not isinstance(fv, (Nd, Alt)):
+                return Rep(fv, shp[0])
             if is_nan(fv):
                 b = Buf(shp, "nan", e)
             else:
@@ -1252,8 +1258,8 @@ class AInterp(Interp):
                     return Opq("scalar-" + ext.split(".")[-1], [a])
                 return Opq(ext, args)
             lax = as_lin_val(ax)
-            if lax is not None and lax.is_const() and lax.const == 0 and a.ndim == 2:
-                c = ColAgg(a, 0)
+            if lax is not None and lax.is_const() and lax.const in (0, 1) and a.ndim == 2:
+                c = ColAgg(a, int(lax.const))
                 c.kind = ext.split(".")[-1]
                 return c
             return Opq(ext, args)
@@ -1328,6 +1334,9 @@ class AInterp(Interp):
             return View(a, [("sl", 0, ZERO)], [a.shape[0], ONE])
         if len(ls) == 2 and not minus1 and a.ndim == 1:
             return Resh2(a, ls[0], ls[1])
+        if len(ls) == 2 and minus1 == [0] and a.ndim == 1:
+            rows = sym_div("floor", a.shape[0], ls[1]) if not (a.shape[0].is_const() and ls[1].is_const()) else Lin.c(a.shape[0].const // ls[1].const)
+            return Resh2(a, rows, ls[1])
         return Opq("reshape", [a] + list(args))
 
 
